@@ -107,7 +107,7 @@ impl Property for P {
     }
     fn rule(&self) -> String {
         "Generated: (psk, psk_id) pairs over edge-biased lengths for the constructor; sessions in all 4 modes x 48 suites with any constructible bundle (including the empty bundle in a PSK mode and bundles where one field is a prefix/suffix of the other). \
-         Swept: the 65x65 grid of (len psk, len psk_id) for the constructor; 48x4 cells with psk != psk_id; pairs of sessions that share the bundle and run back to back on one thread with one suite component or the mode changed. \
+         Swept: the 65x65 grid of (len psk, len psk_id) for the constructor; every byte value as a constant string of length 1..=3 in either field and a list of blank/whitespace/NUL strings (the rule must depend on emptiness only); 48x4 cells with psk != psk_id; pairs of sessions that share the bundle and run back to back on one thread with one suite component or the mode changed. \
          Oracle: constructor Ok iff both empty or both non-empty else InvalidPskBundle; ciphertexts/exports equal the reference key schedule fed with the bundle's fields (non-PSK modes: empty defaults). \
          Non-trivial: lone-key/lone-id constructor calls, consistent bundles with psk != psk_id, PSK-mode sessions with psk != psk_id."
             .into()
@@ -167,6 +167,25 @@ impl Property for P {
                 grid.push(Case::Ctor { psk: Bytes(gen::fill(a, 5, 15)), psk_id: Bytes(gen::fill(b, 5, 16)) });
             }
         }
+        // the rule depends on emptiness only, never on content: every byte value as a constant string
+        // of length 1..=3, in either field, next to an empty / non-empty / equal partner
+        let mut content = Vec::new();
+        for b in 0..=255u8 {
+            for len in 1..=3usize {
+                let v = Bytes(vec![b; len]);
+                content.push(Case::Ctor { psk: Bytes(b"k".to_vec()), psk_id: v.clone() });
+                content.push(Case::Ctor { psk: Bytes::default(), psk_id: v.clone() });
+                content.push(Case::Ctor { psk: v.clone(), psk_id: Bytes(b"i".to_vec()) });
+                content.push(Case::Ctor { psk: v.clone(), psk_id: Bytes::default() });
+                content.push(Case::Ctor { psk: v.clone(), psk_id: v.clone() });
+            }
+        }
+        for text in [&b" "[..], b"\t", b"\n", b"\r\n", b"  \t ", b"\0", b"\0\0\0\0", b"null", b"none", b"\xff\xff", b"0", b"-"] {
+            content.push(Case::Ctor { psk: Bytes(b"key".to_vec()), psk_id: Bytes(text.to_vec()) });
+            content.push(Case::Ctor { psk: Bytes::default(), psk_id: Bytes(text.to_vec()) });
+            content.push(Case::Ctor { psk: Bytes(text.to_vec()), psk_id: Bytes(b"id".to_vec()) });
+            content.push(Case::Ctor { psk: Bytes(text.to_vec()), psk_id: Bytes::default() });
+        }
         let mut cells = Vec::new();
         for (s, m) in gen::all_cells(&Suite::all48()) {
             cells.push(Case::Session { sess: gen::cell_session(s, m, 15), msgs: gen::fixed_msgs(15), exports: vec![] });
@@ -198,7 +217,7 @@ impl Property for P {
                 }
             }
         }
-        vec![("ctor_length_grid_65x65".into(), grid), ("suite_x_mode_cells".into(), cells), ("same_bundle_back_to_back_pairs".into(), pairs)]
+        vec![("ctor_length_grid_65x65".into(), grid), ("ctor_every_byte_value_and_blank_strings".into(), content), ("suite_x_mode_cells".into(), cells), ("same_bundle_back_to_back_pairs".into(), pairs)]
     }
     fn check(&self, case: &Case, obs: &mut Obs) -> Verdict {
         match case {
